@@ -12,7 +12,11 @@ recorded slice itself is reversed in place, so that the object remembers the rev
 import KinModel.Schema.Events
 namespace KinModel.Schema
 
-inductive Obs | jsonPointer | errorText | unwrap
+inductive Obs
+  | jsonPointer | errorText | unwrap
+  /-- `openapi3filter.ConvertErrors` on a RequestError (request body) wrapping the error: `convertSchemaError` shows the
+  pointer as `Source.Pointer` and calls `JSONPointer()` once, twice for an `enum` error -/
+  | convertErrors (enum : Bool)
   deriving DecidableEq, Repr
 
 /-- one observation: the path recorded afterwards, and the pointer the caller sees (`none`: the observer shows no path) -/
@@ -20,6 +24,8 @@ def obsStep (copies : Bool) (rp : List Tok) : Obs → List Tok × Option (List T
   | .jsonPointer => (if copies then rp else rp.reverse, some rp.reverse)
   | .errorText => (rp, some rp.reverse)
   | .unwrap => (rp, none)
+  | .convertErrors enum =>
+    ((if copies then rp else (if enum then rp else rp.reverse)), some rp.reverse)
 
 /-- a sequence of observations of one error object: the pointers seen, in order, and the path recorded at the end -/
 def observe (copies : Bool) : List Tok → List Obs → List (List Tok) × List Tok
@@ -30,7 +36,7 @@ def observe (copies : Bool) : List Tok → List Obs → List (List Tok) × List 
     ((match st.2 with | some p => p :: rest.1 | none => rest.1), rest.2)
 
 /-- the observation sequence the differential run performs on every returned error, after the first `JSONPointer()` -/
-def reobsSeq : List Obs := [.jsonPointer, .errorText, .unwrap, .jsonPointer]
+def reobsSeq : List Obs := [.jsonPointer, .errorText, .unwrap, .jsonPointer, .convertErrors false, .jsonPointer]
 
 end KinModel.Schema
 
